@@ -6,27 +6,6 @@ import O1722.Lemmas.Byteorder
 
 namespace O1722
 
-theorem Mem.write_apply (m : Mem) (a : Nat) (bs : List Byte) (x : Nat) :
-    (m.write a bs) x = if h : a ≤ x ∧ x < a + bs.length then bs[x - a]'(by omega) else m x := by
-  induction bs generalizing m a with
-  | nil =>
-    have : ¬ (a ≤ x ∧ x < a + ([] : List Byte).length) := by simp
-    rw [dif_neg this]; rfl
-  | cons b bs ih =>
-    rw [Mem.write, ih]
-    by_cases h1 : x = a
-    · subst h1
-      have : ¬ (x + 1 ≤ x ∧ x < x + 1 + bs.length) := by omega
-      simp [this, Mem.set]
-    · by_cases h2 : a + 1 ≤ x ∧ x < a + 1 + bs.length
-      · have h3 : a ≤ x ∧ x < a + (b :: bs).length := by simp; omega
-        rw [dif_pos h2, dif_pos h3]
-        have : x - a = (x - (a + 1)) + 1 := by omega
-        simp [this]
-      · have h3 : ¬ (a ≤ x ∧ x < a + (b :: bs).length) := by simp; omega
-        rw [dif_neg h2, dif_neg h3]
-        simp [Mem.set, h1]
-
 theorem Mem.write_outside (m : Mem) (a : Nat) (bs : List Byte) (x : Nat)
     (h : x < a ∨ a + bs.length ≤ x) : (m.write a bs) x = m x := by
   rw [Mem.write_apply]
